@@ -26,13 +26,23 @@ Fixpoint pl_map (tbl : list row) (cur : row) (t : Z) : Z :=
 Definition table_map (tbl : list row) (t : Z) : Z :=
   match tbl with [] => t | r :: rest => pl_map rest r t end.
 
+Definition xRows (s : sx) : list (list Z) := map xZs (xL s).
+Definition oRows (l : list (list Z)) : sx := L (map oZs l).
+Definition xMeta (s : sx) : meta :=
+  mkMeta (xZs (xnth 0 s)) (xZs (xnth 1 s)) (xZs (xnth 2 s)) (xRows (xnth 3 s)) (xRows (xnth 4 s)) (xRows (xnth 5 s)).
+Definition oMeta (m : meta) : sx :=
+  L [oZs (m_scalars m); oZs (m_composers m); oZs (m_genres m); oRows (m_instr m); oRows (m_parts m);
+     oRows (m_groups m)].
+
 (* (op args...) *)
 Definition run (s : sx) : sx :=
   let a := fun n => xnth n s in
   match xZ (a 0%nat) with
   | 1 => oRes oSeq (shift (xZ (a 1%nat)) (xSeq (a 2%nat)))
   | 2 => oRes oSeq (stretch (xZ (a 1%nat)) (xZ (a 2%nat)) (xSeq (a 3%nat)))
-  | 3 => oRes oSeq (concatenate (map xSeq (xL (a 1%nat))) (xZs (a 2%nat)))
+  | 3 => (* seqs durs metas -> (seq meta) *)
+      oRes (fun c => L [oSeq c; oMeta (concat_meta (map xMeta (xL (a 3%nat))))])
+           (concatenate (map xSeq (xL (a 1%nat))) (xZs (a 2%nat)))
   | 4 => oRes oSeq (repeat_to_duration (xSeq (a 1%nat)) (xZ (a 2%nat)) (xOptZ (a 3%nat)))
   | 5 => oRes (fun p => L [oSeq (fst p); I (snd p)])
               (adjust (table_map (map xRow (xL (a 1%nat)))) (xOptZ (a 2%nat)) (xSeq (a 3%nat)))
